@@ -25,6 +25,7 @@ import (
 	"io"
 	"os"
 	"path/filepath"
+	"runtime/pprof"
 	"strconv"
 	"strings"
 	"time"
@@ -335,6 +336,12 @@ func child(r *vf.Run) {
 	tmp := filepath.Join(r.Scratch, "tmp")
 	_ = os.MkdirAll(tmp, 0o755)
 	os.Setenv("TMPDIR", tmp)
+	if pf := os.Getenv("VERIF_C19_PROF"); pf != "" {
+		if f, err := os.Create(pf); err == nil {
+			_ = pprof.StartCPUProfile(f)
+			defer pprof.StopCPUProfile()
+		}
+	}
 	for i := lo; i < hi; i++ {
 		fmt.Fprintf(jf, "BEGIN %d\n", i)
 		_ = jf.Sync()
